@@ -3,7 +3,7 @@ CONSTANTS
   Threads = {"main", "w1", "w2"}
   Inf = 1000000
   Slack = 0
-  Ids <- Ids3
+  Ids <- Ids2
   ActIds <- Acts0
   RaisingActs = {}
   NewTimeouts = {0, 2}
@@ -12,8 +12,8 @@ CONSTANTS
   WaitTimeouts = {1000000, 0, 2}
   Dto = 3
   Waiters = {"w1", "w2"}
-  Depth = 7
-  MaxTicks = 4
+  Depth = 6
+  MaxTicks = 3
   MaxClears = 1
   MaxWaits = 3
   MaxSetNames = 0
